@@ -9,7 +9,7 @@ from typing import Any, get_args
 from typing import Generic
 from typing import NamedTuple
 
-from geneticengine.grammar.decorators import get_gengy, is_builtin
+from geneticengine.grammar.decorators import get_gengy
 from geneticengine.grammar.utils import is_metahandler
 from geneticengine.grammar.utils import all_init_arguments_typed, is_union
 from geneticengine.grammar.utils import get_arguments
@@ -84,6 +84,7 @@ class Grammar:
         )
         self.considered_subtypes = considered_subtypes or []
         self.expansion_depthing = expansion_depthing
+        self.weights: dict[type, float] | None = None  # normalised for THIS grammar by update_weights
 
         self.validate()
 
@@ -335,8 +336,13 @@ class Grammar:
                 pass
 
     def get_weights(self):
-        weights = {prod: get_gengy(prod).get("weight", 1.0) for prod in self.all_nodes}
-        return weights
+        """The weight of every symbol: as normalised for this grammar (update_weights), otherwise as declared on the
+        classes. The classes keep what the user declared: another grammar over the same classes (a sub-language, the
+        next model being fitted) starts from the declared weights too, not from this grammar's normalisation."""
+        declared = {prod: get_gengy(prod).get("weight", 1.0) for prod in self.all_nodes}
+        if self.weights is None:
+            return declared
+        return {prod: self.weights.get(prod, w) for prod, w in declared.items()}
 
     def update_weights(self, learning_rate, extra_weights):
         weights = self.get_weights()
@@ -355,15 +361,11 @@ class Grammar:
             assert weights[weight] >= 0 and weights[weight] <= 1
 
         starting_symbol = self.starting_symbol
-        starting_symbol.__dict__["__gengy__"]["weight"] = weights[starting_symbol]
-        nodes = list()
-        for node in self.considered_subtypes:
-            if node in weights and not is_builtin(node):  # only grammar classes carry a weight
-                node.__dict__["__gengy__"]["weight"] = weights[node]
-            nodes.append(node)
+        nodes = list(self.considered_subtypes)
         self.__init__(starting_symbol, nodes, self.expansion_depthing)
         self.register_type(starting_symbol)
         self.preprocess()
+        self.weights = weights  # kept on the grammar: the declared weights on the classes are left as they are
         return self
 
     def usable_grammar(self) -> Grammar:
